@@ -105,7 +105,8 @@ pub fn pair_domain<S: Int, R: Int, const N: usize>(
         };
         for (i, &x) in la.iter().enumerate() {
             for (j, &y) in lb.iter().enumerate() {
-                let lane = (i + j) % N;
+              // every boundary pair visits every lane position (a slip in one lane of one method needs that lane)
+              for lane in 0..N {
                 let mut a = [S::zero(); N];
                 let mut b = [R::one(); N];
                 if (i + j) % 2 == 0 {
@@ -121,6 +122,7 @@ pub fn pair_domain<S: Int, R: Int, const N: usize>(
                 a[lane] = x;
                 b[lane] = y;
                 cb(a, b, lane);
+              }
             }
         }
         for it in 0..opts.random {
